@@ -85,6 +85,12 @@ func (w *World) VerifyFunc(ct *Contract) (res *FuncResult) {
 		if fn.Synthetic == "package initializer" && fn.Pkg != nil && fn.Pkg.Pkg.Path() == gi.Pkg {
 			continue
 		}
+		// only functions of the declaring package are given the invariant (the variables it is
+		// about are typically unexported; bringing their heap components into every other function's
+		// context would only add frame obligations there)
+		if fnPkgPath(fn) != gi.Pkg {
+			continue
+		}
 		// every package-level variable the invariant mentions must be assigned by the initialiser only
 		mutable := ""
 		for _, tok := range identRe.FindAllString(gi.Clause.Src, -1) {
